@@ -67,7 +67,7 @@ ALIGNS = [1, 2, 4, 8, 16, 3, 5, 6, 7, 10, 32, 64, 100, 128, 256, 512, 1000, 1024
 
 
 def budget(tier):
-    return dict(examples=6000 if tier == "quick" else 150000, shards=16)
+    return dict(examples=10000 if tier == "quick" else 150000, shards=16)
 
 
 # ------------------------------------------------------------------------------------------ generator
